@@ -42,7 +42,7 @@ def correspondence(ctx):
         ctx.count(f"probe-stats={len(sts)}")
         ctx.case([core.tolist(sc["U"]), core.tolist(sc["z"]), core.tolist([s["f"] for s in sc["sts"]])], nontrivial=sc["C"] * sc["D"] >= 2,
                  sample={"C": sc["C"], "D": sc["D"], "rU": sc["rU"], "rV": sc["rV"], "probe_stats": len(sts), "score_model": core.dec(o["score"])})
-        inp = {k: sc[k] for k in ("C", "D", "rU", "rV", "jfa", "w", "m", "v", "U", "V", "Dd", "route", "np_ints", "layout", "int_subspaces", "ubm_layout", "ubm_int_means", "sts", "y", "z")}
+        inp = {k: sc[k] for k in ("C", "D", "rU", "rV", "jfa", "w", "m", "v", "U", "V", "Dd", "route", "np_ints", "layout", "int_subspaces", "ubm_layout", "ubm_int_means", "ubm_mvt", "sts", "y", "z")}
         x = core.impl(lambda: np.asarray(mach.estimate_x(sts), dtype=float))
         mx = fagen.dec1(o["x"], sc["rU"])
         if isinstance(x, core.ImplError) or not core.close(mx, x, 1e-8, 1e-10):
@@ -139,17 +139,22 @@ def oracle(sc):
 def oracle_entry(sc, arrays):
     mach = fagen.mk_machine(sc, enroll_iterations=1 + len(arrays[0]) % 4)  # the machine's own setting, 1..4: every entry point enrols with it
     marg = (sc["y"], sc["z"]) if sc["jfa"] else sc["z"]
+    from bob.learn.em import gmm as gmod
+
+    def st_(d):  # the UBM statistics of an array, by the E-step itself (not by the convenience method the entry points may share)
+        return gmod.e_step(np.asarray(d), mach.ubm)
+
     a = core.impl(lambda: float(mach.score_using_array(marg, arrays)))
-    b = core.impl(lambda: float(mach.score(marg, [mach.ubm.acc_stats(d) for d in arrays])))
+    b = core.impl(lambda: float(mach.score(marg, [st_(d) for d in arrays])))
     if isinstance(a, core.ImplError) or isinstance(b, core.ImplError) or not core.close(a, b, 1e-12, 1e-12):
         return {"sig": "score_using_array-differs", "what": f"{a!r} vs {b!r}"}
     e1 = core.impl(lambda: mach.enroll_using_array(arrays[0]))
-    e2 = core.impl(lambda: mach.enroll([mach.ubm.acc_stats(arrays[0])]))
+    e2 = core.impl(lambda: mach.enroll([st_(arrays[0])]))
     if isinstance(e1, core.ImplError) or isinstance(e2, core.ImplError) or not all(core.close(np.asarray(p), np.asarray(q), 1e-12, 1e-12) for p, q in zip(np.atleast_1d(e1) if not sc["jfa"] else e1, np.atleast_1d(e2) if not sc["jfa"] else e2)):
         return {"sig": "enroll_using_array-differs", "what": f"{e1!r} vs {e2!r}"}
     if not sc["jfa"]:
         t = core.impl(lambda: np.asarray(mach.transform(arrays[0]), dtype=float))
-        u = core.impl(lambda: np.asarray(mach.estimate_ux([mach.ubm.acc_stats(arrays[0])]), dtype=float))
+        u = core.impl(lambda: np.asarray(mach.estimate_ux([st_(arrays[0])]), dtype=float))
         if isinstance(t, core.ImplError) or isinstance(u, core.ImplError) or not core.close(t, u, 1e-12, 1e-12):
             return {"sig": "isv-transform-is-not-channel-offset", "what": f"transform(X): {t!r}; U estimate_x([acc_stats(X)]): {u!r}"}
     # training from a raw array (every row is one session; NumPy and row-chunked Dask; labels interleaved, not grouped) agrees
@@ -157,7 +162,7 @@ def oracle_entry(sc, arrays):
     import dask.array as da
 
     rr = np.random.default_rng(len(arrays[0]))
-    X = np.vstack(arrays + [gen.sample_data(rr, sc["w"], sc["m"], sc["v"], 8)])
+    X = np.vstack([a_[:12] for a_ in arrays] + [gen.sample_data(rr, sc["w"], sc["m"], sc["v"], 8)])  # (a few rows of each: every row is a session here)
     y = np.array([(k * 7 + k // 3) % 3 for k in range(len(X))])
     if len(set(y.tolist())) == 3:
         def params(m):
@@ -186,10 +191,12 @@ def search(ctx):
         arrays = None
         if not f and i % 4 == 0:
             arrays = [gen.sample_data(ctx.rng, sc["w"], sc["m"], sc["v"], int(ctx.rng.integers(2, 12))) for _ in range(int(ctx.rng.integers(1, 4)))]
+            if ctx.rng.random() < 0.2:  # one long recording (a thousand to a few thousand frames)
+                arrays[0] = gen.sample_data(ctx.rng, sc["w"], sc["m"], sc["v"], int(ctx.rng.integers(1025, 2600)))
             f = oracle_entry(sc, arrays)
         if f and f["sig"] not in seen:
             seen.add(f["sig"])
-            f["input"] = {**{k: sc[k] for k in ("C", "D", "rU", "rV", "jfa", "w", "m", "v", "U", "V", "Dd", "route", "np_ints", "layout", "int_subspaces", "ubm_layout", "ubm_int_means", "sts", "y", "z")}, "arrays": arrays}
+            f["input"] = {**{k: sc[k] for k in ("C", "D", "rU", "rV", "jfa", "w", "m", "v", "U", "V", "Dd", "route", "np_ints", "layout", "int_subspaces", "ubm_layout", "ubm_int_means", "ubm_mvt", "sts", "y", "z")}, "arrays": arrays}
             fails.append(f)
     return fails
 
